@@ -31,7 +31,7 @@ META = {
 LINES = [
     "r0\t50\t0\t10\t+\t>s0>s1\t25\t2\t12\t9\t10\t60\ttp:A:P\tNM:i:-1\tcg:Z:5=1X4=\n",
     "r1\t50\t0\t10\t+\t<s1<a0\t19\t0\t10\t10\t10\t0\ttp:A:S\tcg:Z:10=\n",
-    "r2 extra words\t50\t3\t13\t+\t>s1<b0>s2\t22\t1\t11\t8\t10\t60\tzd:Z:a b:c\tcg:Z:4=2D4=\n",
+    "r2 extra words\t50\t3\t13\t+\t>s1<b0>s2\t22\t1\t11\t8\t10\t60\tcg:Z:4=2D4=\tzd:Z:a b:c \n",
 ]
 STABLE = [
     "r0\t50\t0\t10\t+\tchr1\t30\t2\t12\t9\t10\t60\ttp:A:P\tcg:Z:5=1X4=\n",
